@@ -1822,8 +1822,12 @@ where
                     packet.topic_name(),
                     ta
                 );
-                if let Some(ref mut topic_alias_send) = self.topic_alias_send {
-                    topic_alias_send.insert_or_update(packet.topic_name(), ta);
+                // Only a packet that goes out now tells the peer about the binding; a packet
+                // that is merely queued is stored (and later sent) without its alias
+                if self.status == ConnectionStatus::Connected {
+                    if let Some(ref mut topic_alias_send) = self.topic_alias_send {
+                        topic_alias_send.insert_or_update(packet.topic_name(), ta);
+                    }
                 }
             } else {
                 events.push(GenericEvent::NotifyError(MqttError::PacketNotAllowedToSend));
